@@ -1,7 +1,5 @@
-import Mathlib.Data.Finset.Card
 import Tahoe.Immutable.Helper
-/-! Lemmas for the already-present decision of C44 (proof file; the single Mathlib module is used for the
-pigeonhole step): `dedup` yields a duplicate-free list with the same members, and a duplicate-free list
+/-! Lemmas for the already-present decision of C44 (core Lean only): `dedup` yields a duplicate-free list with the same members, and a duplicate-free list
 of `n` or more share numbers below `n` contains every share number below `n`. -/
 namespace Tahoe.Helper
 
@@ -33,15 +31,53 @@ theorem dedup_nodup (l : List Nat) : (dedup l).Nodup := by
       refine List.nodup_cons.2 ⟨?_, ih⟩
       intro h; exact hy ((mem_dedup rest y).1 h)
 
-/-- pigeonhole: a duplicate-free list of at least `n` naturals below `n` contains each of them -/
-theorem nodup_covers (n : Nat) (l : List Nat) (hn : l.Nodup) (hlt : ∀ x ∈ l, x < n) (hlen : n ≤ l.length)
-    (i : Nat) (hi : i < n) : i ∈ l := by
-  have hsub : l.toFinset ⊆ Finset.range n := by
-    intro x hx; simp at hx; simpa using hlt x hx
-  have hcard : l.toFinset.card = l.length := List.toFinset_card_of_nodup hn
-  have := Finset.eq_of_subset_of_card_le hsub (by simp [hcard]; exact hlen)
-  have hi' : i ∈ Finset.range n := by simpa using hi
-  rw [← this] at hi'
-  simpa using hi'
+/-- pigeonhole, part 1: a duplicate-free list of naturals below `n` has at most `n` elements -/
+theorem nodup_length_le (n : Nat) : ∀ l : List Nat, l.Nodup → (∀ x ∈ l, x < n) → l.length ≤ n := by
+  induction n with
+  | zero =>
+    intro l _ hlt
+    cases l with
+    | nil => simp
+    | cons x rest => exact absurd (hlt x (List.mem_cons_self ..)) (Nat.not_lt_zero x)
+  | succ n ih =>
+    intro l hn hlt
+    have hn' : (l.erase n).Nodup := hn.erase n
+    have hlt' : ∀ x ∈ l.erase n, x < n := by
+      intro x hx
+      have := (hn.mem_erase_iff).1 hx
+      have h1 := hlt x this.2
+      omega
+    have hl := ih (l.erase n) hn' hlt'
+    by_cases hm : n ∈ l
+    · rw [List.length_erase_of_mem hm] at hl; omega
+    · rw [List.erase_of_not_mem hm] at hl; omega
+
+/-- pigeonhole, part 2: a duplicate-free list of at least `n` naturals below `n` contains each of them -/
+theorem nodup_covers (n : Nat) : ∀ (l : List Nat), l.Nodup → (∀ x ∈ l, x < n) → n ≤ l.length →
+    ∀ i, i < n → i ∈ l := by
+  induction n with
+  | zero => intro l _ _ _ i hi; omega
+  | succ n ih =>
+    intro l hn hlt hlen i hi
+    have hmem : n ∈ l := by
+      apply Classical.byContradiction
+      intro hm
+      have hlt' : ∀ x ∈ l, x < n := by
+        intro x hx
+        have h1 := hlt x hx
+        have : x ≠ n := fun h => hm (h ▸ hx)
+        omega
+      have := nodup_length_le n l hn hlt'
+      omega
+    by_cases hin : i = n
+    · rw [hin]; exact hmem
+    · have hn' : (l.erase n).Nodup := hn.erase n
+      have hlt' : ∀ x ∈ l.erase n, x < n := by
+        intro x hx
+        have := (hn.mem_erase_iff).1 hx
+        have h1 := hlt x this.2
+        omega
+      have hlen' : n ≤ (l.erase n).length := by rw [List.length_erase_of_mem hmem]; omega
+      exact List.mem_of_mem_erase (ih (l.erase n) hn' hlt' hlen' i (by omega))
 
 end Tahoe.Helper
